@@ -444,7 +444,8 @@ def run_float(ctx, cases):
                         except (parsers.FormatError, OSError):
                             ev["valid"] = False
                     events.append(ev)
-                    stage[0] = (api, target)
+                    if ev["target_ok"]:
+                        stage[0] = (api, target)
             # -- refusal: the same target again with overwrite=False
             if doc is not None:
                 if case["refuse_api"] == "convert" and stage[0] is not None:
@@ -587,7 +588,7 @@ def run(ctx):
             run_transition(ctx, t, variant=(ctx.seed * 7919 + i) % 100003, vseed=(ctx.seed * 104729 + i) % 1000003)
 
     if not only or "sim" in only:
-        nsim = ctx.pick(25, 400)
+        nsim = ctx.pick(20, 400)
         res = ctx.tlc("MC_MapIO", cfg("SimInit", "TwoBases", "AllDt", 8, "hist", props=False), name="sim", env=env,
                       simulate=nsim, depth=10, seed=ctx.seed + 1, workers=1)
         seen = set()
